@@ -238,7 +238,7 @@ where
 
         let color = self.background_color.get_byte_value();
         self.interface.cmd(spi, Command::WriteRam)?;
-        self.interface.data_x_times(spi, color, WIDTH * HEIGHT)?;
+        self.interface.data_x_times(spi, color, WIDTH / 8 * HEIGHT)?;
 
         Ok(())
     }
